@@ -251,7 +251,7 @@ def check_C06(tier):
     agg = Agg('C06')
     agg.add(reps)
     rule = ('finite grid enumerated completely in both tiers: (51 published isotopes + 7 names both sides must refuse) x levels -1..17 x modes 0..25, through genbbsub '
-            '(vs reference ier + README mode-20 rule) and through decay0_generator::initialize with 5 window kinds (none, valid, inverted, min==max, entirely above e0; on capable and '
+            '(vs reference ier + README mode-20 rule) and through decay0_generator::initialize with 7 window kinds (none, valid, inverted, min==max, entirely above e0, lower bound only, upper bound only; on capable and '
             'non-capable modes); every accepted legacy point shoots N events through the C03/C04 predicates (N=6 quick, 60 thorough); every rejected point must refuse '
             'shoot(); 24 labels round-trip, 7 unknown labels; distinct = grid points')
     return verdict(agg, tier, t0, rule, REF_ASSUME[:2] + ['names are compared only on published spellings and on names both the reference and the port must refuse (the reference\'s '
@@ -435,14 +435,15 @@ def check_C12(tier):
     base = ['--seed', str(seed()), '--tier', tier, '--known', known_tsv('C12')]
     agg.add(run_native(b, base + ['--mode', 'kernel'], NCPU, 'C12-kernel'))
     agg.add(run_native(b, base + ['--mode', 'gen'], NCPU, 'C12-gen'))
-    agg.add(run_native(b, base + ['--mode', 'lockstep'], NCPU, 'C12-lockstep'))
+    agg.add(run_native(b, base + ['--mode', 'lockstep'], NCPU, 'C12-lockstep', extra_env=_ga_env()))
+    agg.add(run_native(b, base + ['--mode', 'free', '--cases', '0'], NCPU, 'C12-free', extra_env=_ga_env()))
     # free-running under ThreadSanitizer (first-use initialisation included: each process starts cold)
     bt = compile_bin('threads', ['checks/threads.cc'], 'tsan', inc=[vlib.build_ref()])
     tlog = os.path.join(BUILD, 'run', 'C12-tsanlog')
     import shutil, glob
     shutil.rmtree(tlog, ignore_errors=True)
     os.makedirs(tlog)
-    reps = run_native(bt, base + ['--mode', 'free', '--cases', '160' if tier == 'thorough' else '32'], NCPU, 'C12-tsan', extra_env={'TSAN_OPTIONS': 'halt_on_error=0:log_path=' + os.path.join(tlog, 'tsan')})
+    reps = run_native(bt, base + ['--mode', 'free', '--cases', '160' if tier == 'thorough' else '32'], NCPU, 'C12-tsan', extra_env=dict(_ga_env(), TSAN_OPTIONS='halt_on_error=0:log_path=' + os.path.join(tlog, 'tsan')))
     tsan_text = ''.join(open(f, errors='replace').read() for f in glob.glob(os.path.join(tlog, 'tsan.*')))
     for r in reps[:1]:
         r['stderr'] = r.get('stderr', '') + tsan_text
@@ -520,8 +521,11 @@ def check_C08(tier):
     agg.known = {}
     # (b) fuzz_shoot
     fz = _fuzz('fuzz_shoot', ['fuzz/fuzz_shoot.cc'], 'C08', secs=(600 if thorough else 25), jobs=NCPU, agg=agg)
+    # the tabulated-spectra samplers on every table their loaders accept (rows that end below 1, slivers, one-node tables): the C15 target
+    # doubles as a generation-path target here (its semantic traps are C15's business, but any trap on the unchanged tree is one too many)
+    fz.update(_fuzz('fuzz_ga', ['fuzz/fuzz_ga.cc'], 'C08', secs=(120 if thorough else 10), jobs=NCPU, agg=agg, max_len=4096))
     rule = ('cases = (configuration, steered tape, event reuse / pre-fill) from the C04/C05 drivers and (operation, event sequence) from the C10 driver re-run against the ASan+UBSan+_GLIBCXX_ASSERTIONS build, plus the '
-            'structure-aware libFuzzer target fuzz_shoot (bytes -> category, name, level, mode, window, reuse pattern, MDL op, tape); oracle = sanitizers; '
+            'structure-aware libFuzzer target fuzz_shoot (bytes -> category, name, level, mode, window, reuse pattern, MDL op, tape) and the gA sampler target fuzz_ga (loader-accepted tables + deviates); oracle = sanitizers; '
             'distinct = (configuration, path signature, tail class) for the drivers + libFuzzer corpus units')
     return verdict(agg, tier, t0, rule, ['sanitizers as oracle: ASan, UBSan (-fno-sanitize-recover), _GLIBCXX_ASSERTIONS; leak detection off',
                                          'documented rejections (C++ exceptions) are not failures'], extra_cov=fz, min_eval=1000)
